@@ -9,6 +9,7 @@ def check(ctx: Ctx) -> None:
     A.r_check_precedence(ctx, "R09.2")
     A.r_raise_inventory(ctx, "R09.3")
     A.r_lock_flag(ctx, "R09.4")
+    A.r_function_predicate(ctx, "R09.5")
     # TaskGroupAlreadyExists is decided by membership in the group table: a name leaves the table only by cancelling the group
     from .c07 import r_group_table_who
     r_group_table_who(ctx, "R09.6")
